@@ -85,12 +85,12 @@ partial def runConsOps (n : Nat) (w : Int) (maxHealthy : Int) (st : ConsState) (
       let (fc, fvc) := st.all.fb.failures.sumAt now
       let fbs : FbStats := { successes := fa, rejects := fb', failures := fc }
       let ep := Cons.errorPercentage (sums.getD 0 0) (sums.getD 2 0) (sums.getD 4 0)
-      let m := s!"tot={fmtInts r'.totals} roll={fmtInts sums} fbtot={fmtInts [fbs.successes.total, fbs.rejects.total, fbs.failures.total]} fbroll={fmtInts [fva, fvb, fvc]} errpct={fmtRat ep}"
+      let m := s!"tot={fmtInts r'.totals} roll={fmtInts sums} fbtot={fmtInts [fbs.successes.total, fbs.rejects.total, fbs.failures.total]} fbroll={fmtInts [fva, fvb, fvc]} errpct={fmtRat ep} cons=1"
       let rs := SpecC20.kinds.map fun k => SpecC20.rollingAny n w hist st.reads k now
       let (ss, sf, stt) := (rs.getD 0 0, rs.getD 2 0, rs.getD 4 0)
       let spEp : Rat := if ss + sf + stt = 0 then 0 else F64.rne (((sf + stt : Int) : Rat) / ((ss + sf + stt : Int) : Rat))
       let sp := s!"tot={fmtInts (SpecC20.kinds.map (SpecC20.total hist))} roll={fmtInts rs} " ++
-        s!"fbtot={fmtInts (SpecC20.fbKinds.map (SpecC20.fbTotal hist))} fbroll={fmtInts (SpecC20.fbKinds.map fun k => SpecC20.fbRollingAny n w hist st.reads k now)} errpct={fmtRat spEp}"
+        s!"fbtot={fmtInts (SpecC20.fbKinds.map (SpecC20.fbTotal hist))} fbroll={fmtInts (SpecC20.fbKinds.map fun k => SpecC20.fbRollingAny n w hist st.reads k now)} errpct={fmtRat spEp} cons=1"
       runConsOps n w maxHealthy { st with all := { st.all with run := r', fb := fbs }, reads := st.reads ++ [now] } hist realOpen rest (acc.push (m ++ "\t" ++ sp))
     | some "slo" =>
       let m := s!"pass={st.all.slo.pass} fail={st.all.slo.fail} cbpass={st.all.slo.pass} cbfail={st.all.slo.fail}"
